@@ -2,14 +2,9 @@
   C12 - One pending record per request id; record ids strictly increase and are never reused.
 -/
 import SettlusModel.Proofs.Inv
+import SettlusModel.Query
 namespace Settlus.C12
 open Settlus
-
-/-- the by-request-id query (`GetUTXRByRequestId`): index entry, then the record store -/
-def lookup (st : SState) (t : Nat) (req : Str) : Option Rec :=
-  match alGet (st.index t) req with
-  | some id => (st.recs t).find? (fun r => r.id == id)
-  | none => none
 
 /-- **at most one pending record per request id**, in every reachable state -/
 theorem one_pending_per_request (H : Str → Str) (pr : Nat) (c : Bool) (ops : List Op) (t : Nat) :
